@@ -170,6 +170,37 @@ def enum_cases(tier):
                         yield {"graph": g, "back_edges": [[i, j]]}
 
 
+def enum_storelike(tier):
+    """Layered graphs as da.store / compute-many build them: d plain-data nodes and t argument-less tasks at the bottom,
+    2-3 non-task lists each collecting a non-empty subset of the data nodes (and all tasks or none), optionally one more
+    list on top collecting those lists.  order() removes such alias leaves in rounds and re-assigns the priorities of
+    data roots that lose their last dependent: every membership pattern is enumerated."""
+    for d, t, nl in itertools.product((1, 2, 3), (0, 1, 2), (2, 3)):
+        if nl == 3 and d == 3 and tier == "quick":
+            continue
+        data = list(range(d))
+        tasks = list(range(d, d + t))
+        members = []
+        for r in range(1, d + 1):
+            for c in itertools.combinations(data, r):
+                members.append(list(c))
+                if t:
+                    members.append(list(c) + tasks)
+        gi = 0
+        for combo in itertools.product(members, repeat=nl):
+            for top in (False, True):
+                gi += 1
+                shape = [{"kind": "data", "deps": []} for _ in data] + [{"kind": "task", "deps": []} for _ in tasks]
+                shape += [{"kind": "list", "deps": m} for m in combo]
+                if top:
+                    shape.append({"kind": "list", "deps": list(range(d + t, d + t + nl))})
+                for style in ("legacy", "taskspec", "mixed"):
+                    g = dags.dag_spec(shape, "taskspec" if style == "mixed" else style, ["str", "tuple", "mixed"][gi % 3])
+                    if style == "mixed":
+                        g = dags.mixed(g, ("list", "ref", "lit") if gi % 2 else ("list", "ref"))
+                    yield {"graph": g, "return_stats": bool(gi % 2)}
+
+
 def _reaches(shape, a, b):
     """does node a transitively depend on node b?"""
     stack = list(shape[a]["deps"])
@@ -286,6 +317,17 @@ SUBCHECKS = [
         exhaustive=True,
         budget_s={"quick": 70, "thorough": 1200},
         doc="all small DAGs x encodings x external-reference masks x return_stats; cyclic variants",
+    ),
+    Sub(
+        "enum-storelike",
+        check,
+        kind="enum",
+        cases=enum_storelike,
+        nontrivial=lambda case: len(case["graph"]["nodes"]) >= 6,
+        classes=classes,
+        exhaustive=True,
+        budget_s={"quick": 60, "thorough": 900},
+        doc="layered store-like graphs: 1-3 data nodes + 0-2 tasks under 2-3 alias lists (every membership pattern) with and without a collecting list on top, three encodings",
     ),
     Sub(
         "random",
